@@ -122,6 +122,79 @@ def probe_d19():
     return out[False] != out[True], f"sync twin writes {out[False]}, async machine writes {out[True]}"
 
 
+def expr_tail_twins(ctx):
+    """Directed twin family: a boolean guard expression whose LAST operand is a coroutine guard (the
+    position in which the library hands the coroutine back and awaits it; any other position is the
+    recorded finding D10). Async machine (facade and in-loop) vs the same machine with plain functions,
+    for every truth assignment, as `cond` and as `unless`. Returns (cases, failures)."""
+    import asyncio
+    from statemachine import State, StateMachine
+    cases, fails = 0, []
+    for expr in ("p and q", "p or q", "(p or r) and q", "p and r and q", "p or r or q", "not p and q", "q"):
+        for kind in ("cond", "unless"):
+            def make(is_async, vals, log):
+                ns = {}
+                a, b = State(initial=True), State()
+                ns.update(a=a, b=b, go=a.to(b, **{kind: expr}) | a.to(a), back=b.to(a))
+                for nm in ("p", "r"):
+                    ns[nm] = (lambda nm: lambda self: (log.append(nm), vals[nm])[1])(nm)
+                if is_async:
+                    async def q(self):
+                        log.append("q")
+                        await asyncio.sleep(0)
+                        return vals["q"]
+
+                    async def on_enter_b(self):
+                        log.append("enter_b")
+                else:
+                    def q(self):
+                        log.append("q")
+                        return vals["q"]
+
+                    def on_enter_b(self):
+                        log.append("enter_b")
+                ns.update(q=q, on_enter_b=on_enter_b)
+                with warnings.catch_warnings():
+                    warnings.simplefilter("ignore")
+                    return type(StateMachine)("ExprTail", (StateMachine,), ns)
+            for pv in (0, 1):
+                for rv in ("", "x"):
+                    for qv in (None, [], [0], 2):
+                        vals = dict(p=pv, r=rv, q=qv)
+                        obs = {}
+                        for mode in ("sync", "facade", "loop"):
+                            log = []
+                            cls = make(mode != "sync", vals, log)
+                            try:
+                                with warnings.catch_warnings(record=True) as w:
+                                    warnings.simplefilter("always")
+                                    if mode == "loop":
+                                        async def drive():
+                                            sm = cls()
+                                            await sm.activate_initial_state()
+                                            await sm.go()
+                                            return sm.current_state.id
+                                        st = asyncio.run(drive())
+                                    else:
+                                        sm = cls()
+                                        sm.go()
+                                        st = sm.current_state.id
+                                    never = [x for x in w if "never awaited" in str(x.message)]
+                                obs[mode] = (st, log, len(never))
+                            except Exception as e:
+                                obs[mode] = (f"{type(e).__name__}", log, 0)
+                        cases += 1
+                        want = eval(expr, {}, dict(vals))          # CPython is the reference
+                        want_state = "b" if bool(want) == (kind == "cond") else "a"
+                        for mode in ("sync", "facade", "loop"):
+                            if obs[mode][0] != want_state or obs[mode][1] != obs["sync"][1] or obs[mode][2]:
+                                fails.append(f"{kind}={expr!r} with {vals}: {mode} run ended in {obs[mode][0]} "
+                                             f"(expected {want_state}), calls {obs[mode][1]} (plain twin {obs['sync'][1]}), "
+                                             f"never-awaited warnings {obs[mode][2]}")
+                                break
+    return cases, fails
+
+
 def run(ctx):
     lean_obligations(ctx)
     ctx.coverage["rule"] = ("every engine scenario (candidates, guards, validators, nested sends, failing callbacks, result "
@@ -140,6 +213,12 @@ def run(ctx):
         ctx.coverage["distribution_" + tag] = ctx.coverage.get("distribution")
     ctx.coverage.update(tot)
     ctx.coverage["twins_compared"] = tot["evaluations"]
+    ncases, efails = expr_tail_twins(ctx)
+    ctx.coverage["expr_tail_twins"] = ncases
+    ctx.coverage["evaluations"] += ncases
+    if efails:
+        rp = ctx.write_replay("expr_tail_twin.txt", "\n".join(efails[:10]) + "\n")
+        ctx.violation(rp, "coroutine guard as the last operand of a guard expression: " + efails[0])
     # recorded findings
     known = {k.get("exclusion"): k for k in known_findings("C05") if k.get("status") == "known"}
     differs, what = probe_d19()
